@@ -310,7 +310,12 @@ func solveAll(obls []*Obligation, opts SolveOpts) *solveStats {
 						}
 					}
 					b.cond = or(conds...)
-					solveQuery(&b, opts, stats, 1000000+i)
+					// a batch that is not decided quickly is cheaper to decide clause by clause
+					bo := opts
+					if bo.Stage2 > 5*time.Second {
+						bo.Stage2 = 5 * time.Second
+					}
+					solveQuery(&b, bo, stats, 1000000+i)
 					if b.Result == "unsat" {
 						for _, t := range g {
 							t.sub.Result, t.sub.Solver, t.sub.Secs = "unsat", b.Solver, b.Secs/float64(len(g))
